@@ -158,7 +158,7 @@ plain form, `self.p is None or …`, `not (self.p is not None) or …`, conjunct
 operand orders, pattern verification calls, `self.p in CONSTANT_SET`) is implied by the invariant: in every
 environment in which the invariant evaluates to `True` (Python semantics with short-circuiting), the
 property is `None` or its value satisfies the inferred constraint.  Assumptions on the environment
-(`Env.OK`): properties hold `None` or data; a pattern verification function decides its pattern. -/
+(`Env.OK`): `self` is an instance, properties hold `None` or data; a pattern verification function decides its pattern. -/
 theorem recognised_implied (env : Env) (pats : List (Ident × Nat)) (hok : env.OK pats)
     (inv : Expr) (p : Ident) (k : K)
     (hk : (p, k) ∈ recognise pats inv) (he : eval env inv = some (.bool true)) :
@@ -176,13 +176,13 @@ example : recognise [] (.or [.isNone (.member (.name idSelf) 8),
 /-- Non-vacuity of `recognised_implied`: an environment satisfying `Env.OK` in which a guarded
 invariant evaluates to `True` on a non-`None` value. -/
 example :
-    let env : Env := { props := fun p => if p = 8 then some (.data [97, 98]) else some .none,
+    let env : Env := { selfVal := .inst, props := fun p => if p = 8 then some (.data [97, 98]) else some .none,
                        names := fun _ => none, others := fun _ => none, fn := fun _ _ => none,
                        sets := fun _ => none, matchesPat := fun _ _ => false }
     env.OK [] ∧
     eval env (.or [.isNone (.member (.name idSelf) 8),
       .cmp .lt (.call idLen [.member (.name idSelf) 8]) (.const 5)]) = some (.bool true) := by
-  refine ⟨⟨?_, ?_⟩, by rfl⟩
+  refine ⟨⟨rfl, ?_, ?_⟩, by rfl⟩
   · intro p v h
     simp only at h
     split at h <;> cases h
@@ -190,5 +190,21 @@ example :
     · exact Or.inl rfl
   · intro f k t h
     simp [lookupId] at h
+
+
+/-- The same for constrained primitives (`infer_len_constraint_of_self`, `infer_patterns_on_self`; forms
+`len(self) op c`, `c op len(self)`, `f(self)`, conjunctions of `f(self)`): in an environment where `self` is the
+value `t` itself, an invariant that evaluates to `True` implies every inferred constraint on `t`. -/
+theorem recognised_self_implied (env : Env) (pats : List (Ident × Nat)) (t : List Nat)
+    (hs : env.selfVal = .data t)
+    (hfn : ∀ f k t, lookupId f pats = some k → env.fn f [.data t] = some (.bool (env.matchesPat k t)))
+    (inv : Expr) (k : K) (hk : k ∈ recogniseSelf pats inv) (he : eval env inv = some (.bool true)) :
+    k.holds env t :=
+  recogniseSelf_sound env pats t hs hfn inv k hk he
+
+example : recogniseSelf [(9, 0)] (.and [.call 9 [.name idSelf], .cmp .ge (.const 3) (.call idLen [.name idSelf])])
+    = [K.pat 0] := by rfl
+
+example : recogniseSelf [] (.cmp .ge (.const 3) (.call idLen [.name idSelf])) = [K.len (.max 3)] := by rfl
 
 end AasVerif.Props.C15
